@@ -21,12 +21,12 @@ ADDENDA = {
  "C03": "Also decides that every index key generator returns a duplicate-free list (sort before dedup, over the whole result) — idx_diff's merge walk is only a set difference then.",
  "C06": "Also decides that a read transaction opens an SQL transaction (BEGIN) on its connection before it is constructed.",
  "C08": "Also decides that both replication encoders transmit every attribute change id, skipping attributes only for schema/range reasons, never because of the entry's values.",
- "C09": "Also decides that the incremental consumer hands every incoming entry to the conflict/merge tables (nothing removed or filtered before).",
+ "C09": "Also decides that the incremental consumer hands every incoming entry to the conflict/merge tables (nothing removed or filtered before). Also decides that no tombstone row of the state table is decided under a guard.",
  "C11": "Also decides the trim rules: only revocations older than the trim point are dropped, and a forced size trim never looks at the session state.",
  "C12": "Also decides field routing for passwords: every Kdf field is stored in, and read back from, the same field (writer then reader is the identity on fields); and that the OAuth2 session set's derived resource-server filter is only ever accumulated (|=) by its decoders and mutators.",
  "C13": "Also decides that the RUV delta functions consult the cleared-in-this-transaction marker that restore() sets.",
  "C15": "Also decides that the schema check's exemption for class conflict is only usable on recycled entries (conflict added with recycled, removed with it), and that every write path refreshes the cached schema.",
- "C16": "Also decides that no ValueSetT::remove removes references inside the closure of a short-circuiting iterator adapter.",
+ "C16": "Also decides that no ValueSetT::remove removes references inside the closure of a short-circuiting iterator adapter. Also decides that post_repl_incremental's liveness tests treat recycled and tombstoned alike (mask_recycled_ts on both images).",
  "C17": "Also decides that the leaf write-back change test compares every attribute the plugin recomputed.",
  "C18": "Also decides that apply_dyngroup_change overwrites the cached filter of every dynamic group it processes.",
  "C20": "Also rejects any arm (guarded or not) that takes an attribute-bearing Modify variant past the uuid test.",
@@ -36,20 +36,21 @@ ADDENDA = {
  "C23": "Also decides that the readable attribute set, receiver and target of a parsed search profile are read from their own stored attributes.",
  "C26": "Also decides that revive accumulates one membership modification per revived entry and group.",
  "C27": "Also decides that an AuthState::Denied reply is built only by the session's own state functions (which record the denial), never by the caller.",
- "C28": "Also decides that soft-lock policies are produced only from the credential (no constant policy on an authentication path).",
+ "C28": "Also decides that soft-lock policies are produced only from the credential (no constant policy on an authentication path). Also decides that the hash-upgrade paths cannot reach a credential constructor or a fresh uuid (the soft lock is keyed by the credential uuid) and that upgrade_password restores its own uuid.",
  "C31": "Also decides that every write path, replication included, refreshes the cached system configuration (badlist).",
  "C32": "Also decides that entry lookups on the token-to-identity paths hide recycled and tombstoned entries, and that every call of check_within_valid_time feeds the lower bound from valid_from and the upper from expire.",
  "C33": "Also decides that the privilege window of a re-issued token depends only on the current time and the policy's privilege_expiry() (other inputs only as a min() bound).",
  "C34": "Also decides that every write path, replication included, reloads key material, with a class-only condition on the replication path.",
- "C35": "Also decides that every field of a parsed group policy is read from its own stored attribute.",
- "C38": "Also decides that the scope maps, supplementary scope maps, claim map and origin lists of a loaded client are read from their own stored attributes.",
- "C40": "Also decides that the executed filter and the access-checked filter of LDAP search/compare events come from the same client filter.",
+ "C35": "Also decides that every field of a parsed group policy is read from its own stored attribute. Also decides that the policies folded are those of the groups in the account's memberof (not only direct ones) and that nothing shortens the iterator before the fold.",
+ "C38": "Also decides that the scope maps, supplementary scope maps, claim map and origin lists of a loaded client are read from their own stored attributes. Also decides that the loaded client set is rebuilt wholesale on reload.",
+ "C40": "Also decides that the executed filter and the access-checked filter of LDAP search/compare events come from the same client filter. Also decides that the application cache the LDAP bind consults is rebuilt wholesale on reload.",
  "C42": "Also requires the request grammar to hand on the current nesting budget in every recursive alternative (no fresh restart).",
  "C43": "Also decides that the client drops its cached stream after any failed exchange, so a late reply cannot answer the next request.",
  "C44": "Also decides that resolver methods read the cached token only after taking the single-writer lock when they write a token back.",
  "C45": "Also decides that a successful offline authentication writes back the latest cached record, not the session snapshot.",
  "C48": "Also decides that an existing built-in entry can only be left as is through the assert-modify (no success shortcut).",
  "C49": "Also decides that valid_from / expire / radius_secret of every parsed account struct are read from account_valid_from / account_expire / radius_secret.",
+ "C14": "Also decides that the tokio Decoder/Encoder impls of both codecs are pure delegations to the two table-checked functions.",
 }
 
 ids = [json.loads(l)["id"] for l in open(os.path.join(VERIF, "properties.jsonl"))]
